@@ -27,7 +27,9 @@ CLAIMS = {
              "lattice (two wrong variants are rejected). TLC-generated scenarios (1..4 stops incl. repeated positions, "
              "17 geometries, 4 repeat modes, 12 transforms: affine, shear, w = 2, perspective in x only / y only / "
              "both, w crossing zero; narrow and float destinations; 4 rows per composite call) and the exhaustive "
-             "linear gradients 2^10..2^18 periods away from [0,1] (vectors down to 48/65536 pixel, origin up to 250 pixels "
+             "the same grid as the source of masked composites (a8 / a8r8g8b8 masks with leading, interior and trailing "
+             "runs of zero of lengths 0, 1, 2, 3, many and partial values; judged as gradient IN mask with the exact "
+             "MulUn8 rounding), linear gradients 2^10..2^18 periods away from [0,1] (vectors down to 48/65536 pixel, origin up to 250 pixels "
              "away, 256-fold down-scaling transform), "
              "repeat-switch histories on one image object (every ordered pair and A,B,A of the four repeat modes, each "
              "composite judged under the mode in force: stale sentinel stops must not show), the exhaustive "
@@ -80,7 +82,33 @@ def tlc_far():
     return res, r
 
 
-def g_line(claim, kind, repeat, wide, stops, geom, m, dw=DW, dh=DH):
+# mask rows (12 pixels): leading / interior / trailing runs of zero of lengths 0, 1, 2, 3, many; 0 / partial / 255
+MASK_ROWS = [
+    [0, 0, 255, 255, 128, 0, 0, 0, 255, 1, 254, 0],
+    [0, 255, 0, 255, 255, 77, 0, 0, 200, 255, 0, 0],
+    [0, 0, 0, 200, 255, 255, 3, 0, 0, 0, 0, 255],
+    [0, 0, 0, 0, 0, 0, 0, 0, 0, 0, 0, 255],
+    [255, 255, 255, 255, 255, 255, 255, 255, 255, 255, 255, 255],
+    [255, 0, 0, 129, 0, 255, 255, 0, 0, 0, 64, 0],
+    [0, 0, 0, 0, 0, 255, 127, 255, 0, 0, 0, 0],
+    [0, 0, 0, 0, 0, 0, 0, 0, 0, 0, 0, 0],
+]
+
+
+def mask_for(i):
+    """(format, values) of the i-th mask: four of the rows above, rotating"""
+    rows = [MASK_ROWS[(i + 3 * y) % len(MASK_ROWS)] for y in range(DH)]
+    return i % 2, [v for r in rows for v in r]
+
+
+def g_line(claim, kind, repeat, wide, stops, geom, m, dw=DW, dh=DH, mask=None):
+    pre = ""
+    if mask is not None:
+        pre = "M %d %d %s\n" % (mask[0], len(mask[1]), " ".join(map(str, mask[1])))
+    return pre + _g_line(claim, kind, repeat, wide, stops, geom, m, dw, dh)
+
+
+def _g_line(claim, kind, repeat, wide, stops, geom, m, dw=DW, dh=DH):
     toks = ["G", int(claim), KIND[kind], REPEAT[repeat], int(wide), len(stops)]
     for s in stops:
         toks += list(s)
@@ -325,6 +353,15 @@ def run(prop, args):
     execs = []
     for i, s in enumerate(scns):
         execs.append(["R c%d" % i, g_line(1, s["kind"], s["repeat"], s["wide"], s["stops"], s["g"], s["m"])])
+    # gradients as the source of a MASKED composite (narrow pipeline): the scanline functions skip pixels whose
+    # mask is zero, so every branch is also rendered through masks with runs of zeros of lengths 0, 1, 2, 3, many
+    masked = grid if not quick else grid[(args.seed % 2)::2]
+    if not quick:
+        masked = masked + [s for s in scns[:len(scns) - len(grid) - len(far)] if not s["wide"]][::3]
+    for i, s in enumerate(masked):
+        execs.append(["R k%d" % i, g_line(1, s["kind"], s["repeat"], False, s["stops"], s["g"], s["m"],
+                                           mask=mask_for(i + args.seed))])
+    chk.extra["masked_scenarios"] = len(masked)
     hist = history_scenarios()
     for i, line in enumerate(hist):
         execs.append(["R h%d" % i, line])
